@@ -12,10 +12,10 @@ import matchgen
 from implenv import res as ires
 
 INFO = {
-    'proof_files': ['Proofs/ArgsProofs.v'],
+    'proof_files': ['Proofs/ArgsProofs.v', 'Proofs/ArgsProofsB.v'],
     'assumptions': [
         'theorems are about WD.Args (split_command / classify / select_mode / quote_word / py_eval_literal); tied to frontends/tui/arguments.py (_split_command, parse_args) and backends/gdb_plugin/runner.py (run_gdb) by generated argument vectors: the splitter directly, parse_args in-process (mode, filter, forwarded words), run_gdb with subprocess.Popen intercepted (argv handed to gdb; the `python ...` command is then executed by a real Python interpreter to read back sys.argv), and main.py -r with a helper program that prints its argv',
-        'argparse is not modelled: only exact option spellings with separate values are in the model, everything else (abbreviations, --opt=value, -fVALUE, option-like values) is out of model and counted',
+        'argparse (Python 3.12, allow_abbrev) is modelled for this option table: exact spellings, unique-prefix abbreviations, --opt=value, flag clusters and attached values, option-like values, --, repeated options, unknown options / stray words / ambiguity = usage error (exit 2); out of model (counted): the help actions and dash-initial words containing non-ASCII characters',
         'Python string-literal evaluation is modelled for the literals repr() produces on ASCII text',
     ],
 }
@@ -63,6 +63,8 @@ def impl_parse(argv):
     except SystemExit as e:
         if e.code == 0 and 'usage:' in out.getvalue():
             return ['ok', ['usage']]
+        if e.code == 2 and 'usage:' in err.getvalue():
+            return ['ok', ['exit2']]          # argparse's own error exit
         return ['exit', e.code, (out.getvalue() + err.getvalue())[-200:]]
     except RuntimeError as e:
         msg = str(e)
